@@ -403,11 +403,18 @@ func (s *Translator) buildTraversalPatternRoot(partFrame *Frame, traversalStep *
 			return pgsql.Query{}, fmt.Errorf("left node is marked as bound but there is no previous frame to reference")
 		}
 
+		// In a query part that is followed by WITH the frame before this one is the part's own frame, whose
+		// definition this select is part of; the bound node lives in the frame before that.
+		previousFrame := partFrame.Previous
+		if validFrame, hasValidFrame := s.previousValidFrame(partFrame); hasValidFrame {
+			previousFrame = validFrame
+		}
+
 		// prevFrame is the JOIN root here (not comma-connected), so LeftNodeConstraints
 		// can safely reference it. No partitioning needed for this branch.
 		nextSelect.From = append(nextSelect.From, pgsql.FromClause{
 			Source: pgsql.TableReference{
-				Name: pgsql.CompoundIdentifier{partFrame.Previous.Binding.Identifier},
+				Name: pgsql.CompoundIdentifier{previousFrame.Binding.Identifier},
 			},
 			Joins: []pgsql.Join{{
 				Table: pgsql.TableReference{
